@@ -3,7 +3,7 @@
     of Gen/C16_Fields.v), Model/C16_Heap.v (copy / deepcopy), Model/C16_Codec.v (VCF import, data-frame codecs). *)
 From Coq Require Import String PrimFloat Permutation Sorted.
 From PV Require Import Lib.Common Lib.FloatK Lib.C16_Spec Model.C16_Store Model.C16_Heap Model.C16_Codec Gen.C16_Fields
-                       Gen.C16_Kernel Model.C16_Kernel
+                       Gen.C16_Kernel Model.C16_Kernel Model.C16_Maps Proofs.C16_Maps
                        Proofs.C16_Utf8 Proofs.C16_Store Proofs.C16_Nested Proofs.C16_Tables Proofs.C16_Heap Proofs.C16_Codec Proofs.C16_Kernel.
 Local Open Scope Z_scope.
 
@@ -298,6 +298,44 @@ Theorem C16_kernel_gmap_cM_partial : forall ext,
   forallb (fun k => feqb (gmap_from_cM_k ext (gmap_to_cM_k ext (grid256 k))) (grid256 k)) (seq 0 1025) = true.
 Proof. exact kernel_cM_roundtrip_grid. Qed.
 Print Assumptions C16_kernel_gmap_cM_partial.
+
+(** ** genetic maps: constructor settings, default arguments, egmap files (Model/C16_Maps.v; which arguments, defaults and column
+    names the source uses is regenerated into Gen/C16_Kernel.v on every run) *)
+(** StandardGeneticMap keeps the interpolation kind and fill value it is constructed with *)
+Theorem C16_gmap_ctor_keeps_spline_settings : forall k a, ctor_kind false k a = k /\ ctor_fill false k a = k.
+Proof. exact sgm_ctor_keeps. Qed.
+Print Assumptions C16_gmap_ctor_keeps_spline_settings.
+(** ExtendedGeneticMap does not: whenever it builds its spline it falls back to the defaults of build_spline, so reading a map
+    back with spline_kind equal to the source's does not reproduce that parameter *)
+Theorem C16_codec_roundtrip_egmap_spline_kind_refuted : exists k, ctor_kind true k true <> k /\ ctor_kind true k true = zs "linear".
+Proof. exact egm_ctor_drops_kind. Qed.
+Print Assumptions C16_codec_roundtrip_egmap_spline_kind_refuted.
+Theorem C16_codec_roundtrip_egmap_spline_kind_partial : forall k a, a = false \/ k = zs k_egmap_build_default_kind -> ctor_kind true k a = k.
+Proof. exact egm_ctor_partial. Qed.
+Print Assumptions C16_codec_roundtrip_egmap_spline_kind_partial.
+
+(** to_pandas() followed by from_pandas(), both with their default arguments: the writer's default unit is the centiMorgan, the
+    reader's the Morgan - positions come back multiplied by 100 *)
+Theorem C16_codec_roundtrip_gmap_defaults_refuted :
+  exists ut uf g' m, default_units_to false = Some ut /\ default_units_from false = Some uf
+    /\ gmap_from_pandas false uf false false true (gmap_to_pandas false ut w_map) = Some (g', m)
+    /\ fl_eqb (g_gen g') (g_gen w_map) = false /\ fl_eqb (g_gen g') [0%float; 50%float; 100%float] = true.
+Proof. exact default_roundtrip_scales. Qed.
+Print Assumptions C16_codec_roundtrip_gmap_defaults_refuted.
+
+(** to_egmap followed by from_egmap loses marker names and function codes (the reader looks for header names the writer never
+    produces); everything else survives, and a map without names and codes survives entirely *)
+Theorem C16_codec_roundtrip_egmap_names_refuted :
+  (exists g', egmap_from false (egmap_to w_eg) = Some (g', None)
+              /\ g_name w_eg = Some [[97]; [98]] /\ g_name g' = None /\ g_fn g' = None
+              /\ g_chr g' = g_chr w_eg /\ g_pos g' = g_pos w_eg /\ g_stop g' = g_stop w_eg /\ fl_eqb (g_gen g') (g_gen w_eg) = true)
+  /\ forallb (fun nm => negb (existsb (String.eqb nm) k_egmap_file_header)) k_egmap_file_optional = true.
+Proof. split; [exact egmap_names_lost | exact egmap_header_mismatch]. Qed.
+Print Assumptions C16_codec_roundtrip_egmap_names_refuted.
+Theorem C16_codec_roundtrip_egmap_partial : forall (g : gmap) (auto_group : bool) s, g_stop g = Some s -> g_name g = None -> g_fn g = None ->
+  egmap_from auto_group (egmap_to g) = Some (gmap_construct auto_group g).
+Proof. exact egmap_roundtrip_partial. Qed.
+Print Assumptions C16_codec_roundtrip_egmap_partial.
 
 (** non-vacuity: concrete objects meet the hypotheses; the write succeeds; a variance matrix with sorted labels does round-trip *)
 Example C16_hyps_satisfiable :
